@@ -94,7 +94,10 @@ def parseCommon {R : Type} (t : List String) : Option (Frame R) :=
   | ["wait", d] => d.toNat?.map .wait
   | _ => none
 
-def parseFrame (ex : Exchange) (t : List String) : Option (Frame Resp) :=
+/-- `specMode`: the specification takes a documented failure payload for what the documentation says it
+is, a failure response; the model takes it for what the deserialiser makes of it. They differ for Gateio
+(the generator does not emit `docfail` for Gateio; see the report). -/
+def parseFrame (specMode : Bool) (ex : Exchange) (t : List String) : Option (Frame Resp) :=
   match t with
   | "r" :: a => (parseResp ex a).map .resp
   | "rb" :: a => (parseResp ex a).map .resp
@@ -102,7 +105,9 @@ def parseFrame (ex : Exchange) (t : List String) : Option (Frame Resp) :=
   | ["docfail"] =>
     match docFail ex with
     | some r => some (.resp r)
-    | none => some (.other docPayload)   -- gateio: the documented failure payload does not deserialise
+    | none =>
+      if specMode then some (.resp (.gateio ⟨some 2⟩))
+      else some (.other docPayload)   -- gateio: the documented failure payload does not deserialise
   | _ => parseCommon t
 
 def parseFrameBfx (t : List String) : Option (Frame BfxEvent) :=
@@ -192,7 +197,7 @@ def specRun (s : DSt) : List String :=
     let wrap (r : Res Resp) := r.map fun (b, rest) => (m, b, rest)
     specObs s.frames (wrap (spec Resp.validate t k s.frames)) (wrap (specDeadline Resp.validate t k s.frames))
 
-def step (runner : DSt → List String) (s : DSt) (toks : List String) : DSt × List String :=
+def step (specMode : Bool) (runner : DSt → List String) (s : DSt) (toks : List String) : DSt × List String :=
   match toks with
   | "init" :: name :: es =>
     match parseExchange name, es.mapM parseEntry with
@@ -210,17 +215,17 @@ def step (runner : DSt → List String) (s : DSt) (toks : List String) : DSt × 
       | some f => ({ s with bframes := s.bframes ++ [f] }, [])
       | none => (s, ["bad-op"])
     | some ex =>
-      match parseFrame ex toks with
+      match parseFrame specMode ex toks with
       | some f => ({ s with frames := s.frames ++ [f] }, [])
       | none => (s, ["bad-op"])
 
 def model : Drv DSt where
   init := {}
-  step := step modelRun
+  step := step false modelRun
 
 def spec : Drv DSt where
   init := {}
-  step := step specRun
+  step := step true specRun
 
 end BarterModel.Driver.C13S
 
